@@ -155,6 +155,7 @@ type ExtBehav struct {
 	Reset  []uint32 `json:"reset,omitempty"`
 	Lang   string   `json:"lang,omitempty"` // content is this string (language switch attempt)
 	Uni    bool     `json:"uni,omitempty"`  // pad with multi-byte UTF-8 characters (lengths stay byte lengths)
+	Bad    bool     `json:"bad,omitempty"`  // pad with bytes that are not valid UTF-8 (results are byte strings as far as the VM is concerned)
 }
 
 // ExtSym is an external symbol with its declared size and script (cycled by call index).
@@ -298,6 +299,9 @@ func Content(sym string, k int, inputDigest byte, b *ExtBehav) string {
 	tag := fmt.Sprintf("%s.%d.%02x", sym, k, inputDigest)
 	if b.Len < 0 {
 		return tag
+	}
+	if b.Bad && b.Len > len(tag) {
+		return tag + strings.Repeat("\xff", b.Len-len(tag))
 	}
 	return padToU(tag, b.Len, b.Uni)
 }
